@@ -62,10 +62,39 @@ theorem C18_rewrite_wire (r : RawRequest) (t : Target) (hw : WellFormed r) (ht :
   simpa [canon, htar] using this
 
 /-- anything whose first seven bytes are not `http://` (relative URI, `https://`, `CONNECT host:port`, …)
-    makes `forward_request` throw — and nothing else does (the other throw is the full queue) -/
-theorem C18_rewrite_rejects_iff (r : Request) : rewrite r = .error () ↔ r.req.take 7 ≠ HTTP_PFX := by
+    and anything whose port (`reqPort`: `atoi` of what follows the authority's last ':') does not fit
+    16 bits makes `forward_request` throw — and nothing else does (the other throw is the full queue) -/
+theorem C18_rewrite_rejects_iff (r : Request) :
+    rewrite r = .error () ↔ (r.req.take 7 ≠ HTTP_PFX ∨ reqPort r.req < 0 ∨ reqPort r.req > 65535) := by
   unfold rewrite
-  split <;> simp_all
+  split
+  · simp_all
+  · dsimp only
+    split <;> simp_all
+
+/-- a request that `forward_request` accepts names a port that fits 16 bits … -/
+theorem C18_rewrite_port_range (r : Request) (rw : Rewritten) (h : rewrite r = .ok rw) :
+    rw.port = reqPort r.req ∧ 0 ≤ rw.port ∧ rw.port ≤ 65535 := by
+  unfold rewrite at h
+  split at h
+  · cases h
+  · dsimp only at h
+    split at h
+    · cases h
+    · rename_i hp
+      injection h with h
+      subst h
+      dsimp only
+      omega
+
+/-- … so that the `static_cast<unsigned short>` at the dialling site changes nothing -/
+theorem toU16_of_range (v : Int) (h0 : 0 ≤ v) (h1 : v ≤ 65535) : toU16 v = v.toNat := by
+  unfold toU16
+  rw [Int.emod_eq_of_lt h0 (by omega)]
+
+/-- As-is witness (before 99bb698 nothing tested the range; the port was only cut to 16 bits when
+    dialling): `http://host:73616/` dialled port 8080 = 73616 mod 65536. -/
+theorem C18_asis_port_wraps : toU16 (atoi [55, 51, 54, 49, 54]) = 8080 := by decide
 
 /-! ### C18_relay_verbatim -/
 
@@ -267,17 +296,20 @@ theorem C18_503_on_failure (lit : Bytes → Option Bool) (s : PS) (h : PSInv s) 
 /-- whom the proxy dials: the FIRST request of a session (no connection open, none being made)
     starts a lookup of exactly `rewrite`'s host with `rewrite`'s port as service when the host is no
     address literal, and otherwise opens a socket of the literal's family and connects to
-    (host, port mod 65536); a successful lookup connects to the FIRST address it returned. -/
+    (host, port) — the port itself, which lies in [0, 65535]: no truncation; a successful lookup connects
+    to the FIRST address it returned. -/
 theorem C18_dials (lit : Bytes → Option Bool) (p : Px) (req : Request) (rw : Rewritten)
     (hrw : rewrite req = .ok rw) (hfit : p.nSout + rw.out.length ≤ BUF) (hc : p.connecting = false) (ho : p.srvOpen = false) :
     (lit rw.host = none →
       ∃ p', forwardRequest lit p req = .ok (p', [.queued rw.out, .resolve rw.host (portStr rw.port) p.session]) ∧ p'.connecting = true) ∧
     (∀ v4, lit rw.host = some v4 →
-      ∃ p', forwardRequest lit p req = .ok (p', [.queued rw.out, .openServer v4, .connect rw.host (toU16 rw.port) p.session]) ∧ p'.connecting = true) ∧
+      ∃ p', forwardRequest lit p req = .ok (p', [.queued rw.out, .openServer v4, .connect rw.host rw.port.toNat p.session]) ∧ p'.connecting = true) ∧
     (∀ a port v4 rest,
-      onDomainLookup p p.session .ok ((a, port, v4) :: rest) = ({ p with srvOpen := true }, [.openServer v4, .connect a port p.session])) := by
+      onDomainLookup p p.session .ok ((a, port, v4) :: rest) = ({ p with srvOpen := true }, [.openServer v4, .connect a port p.session])) ∧
+    (0 ≤ rw.port ∧ rw.port ≤ 65535) := by
   have hnb : ¬ (p.nSout + rw.out.length > BUF) := by omega
-  refine ⟨?_, ?_, ?_⟩
+  have hrange := (C18_rewrite_port_range req rw hrw).2
+  refine ⟨?_, ?_, ?_, hrange⟩
   · intro hl
     unfold forwardRequest
     simp only [hrw, hnb, if_false]
@@ -287,7 +319,7 @@ theorem C18_dials (lit : Bytes → Option Bool) (p : Px) (req : Request) (rw : R
     unfold forwardRequest
     simp only [hrw, hnb, if_false]
     rw [memWrite_ok _ _ _ hfit]
-    simp [hc, ho, hl, openForward]
+    simp [hc, ho, hl, openForward, toU16_of_range _ hrange.1 hrange.2]
   · intro a port v4 rest
     simp [onDomainLookup, stale, openForward]
 
@@ -340,10 +372,12 @@ theorem C18_malformed_or_relative_closes (lit : Bytes → Option Bool) (s : PS) 
   simpa [s0] using this
 
 /-- which requests those are: the first complete request of the pending bytes fails to parse
-    (`parse_request` throws) or its target does not start with `http://` (`forward_request` throws) -/
+    (`parse_request` throws) or its target does not start with `http://` or names a port outside
+    [0, 65535] (`forward_request` throws) -/
 theorem C18_scan_bad_first (b : Bytes) (n : Nat) (hn : findRequestLen b b.length = .ok (n : Int)) :
     ((∀ req, parseRequest b n ≠ .ok req) → scan (b.length + 1) b = ([], none)) ∧
-    (∀ req, parseRequest b n = .ok req → req.req.take 7 ≠ HTTP_PFX → scan (b.length + 1) b = ([], none)) :=
+    (∀ req, parseRequest b n = .ok req →
+      (req.req.take 7 ≠ HTTP_PFX ∨ reqPort req.req < 0 ∨ reqPort req.req > 65535) → scan (b.length + 1) b = ([], none)) :=
   ⟨fun h => scan_step_bad_parse b n hn h,
    fun req h1 h2 => scan_step_bad_rewrite b n req hn h1 ((C18_rewrite_rejects_iff req).2 h2)⟩
 
